@@ -601,3 +601,95 @@ func checkTxnWrappers(p *an.Prog, r *an.Run) {
 		r.Check(len(bad) == 0, "one-txn", "wrapper:"+an.FuncName(w), w.Pos(), "the wrapper returns the transaction's own outcome", "%s", strings.Join(dedup(bad), "; "))
 	}
 }
+
+// checkKeyOperandTypes: the persistent driver spells its keys with fmt ("vip:balance:%s", account). fmt prefers an
+// operand's own String/Error/Format method to its underlying string, so such a method on an id type silently becomes
+// part of every key: a display form (abbreviated, checksummed, lower-cased) makes distinct identities share a record
+// or one identity own two. Every operand type of a key format either has no such method or the method is the identity
+// conversion `return string(x)`.
+func checkKeyOperandTypes(p *an.Prog, r *an.Run) {
+	var bad []string
+	n := 0
+	for _, fn := range badgerPkgFuncs(p) {
+		if p.IsTestFunc(fn) {
+			continue
+		}
+		for _, c := range an.Calls(fn, false) {
+			f := an.CallObj(c)
+			if !(an.IsFunc(f, "fmt", "Sprintf") || an.IsFunc(f, "fmt", "Sprint") || an.IsFunc(f, "fmt", "Appendf")) || len(c.Common().Args) < 2 {
+				continue
+			}
+			format, ok := an.ConstString(c.Common().Args[0])
+			if !ok || !strings.HasPrefix(format, "vip:") {
+				continue
+			}
+			els, ok := variadicElems(c.Common().Args[len(c.Common().Args)-1])
+			if !ok {
+				bad = append(bad, "cannot see the operands of the key format "+format+" at "+p.Pos(c.Pos()))
+				continue
+			}
+			for _, e := range els {
+				n++
+				t := underlyingConcrete(e).Type()
+				ms := types.NewMethodSet(t)
+				for _, name := range []string{"String", "Error", "Format", "GoString"} {
+					sel := ms.Lookup(nil, name)
+					if sel == nil {
+						// unexported lookup needs the package; these names are exported
+						continue
+					}
+					mf := p.SSA.FuncValue(sel.Obj().(*types.Func))
+					if mf != nil && isIdentityStringMethod(mf) {
+						continue
+					}
+					bad = append(bad, "the key "+format+" at "+p.Pos(c.Pos())+" is spelled through "+types.TypeString(t, nil)+"."+name+"(), which is not the plain string conversion of the id: two identities with the same display form share one record")
+				}
+			}
+		}
+	}
+	r.Floor("key-operands", n, 10)
+	r.Check(len(bad) == 0, "key-spelling", "badger", token.NoPos, "every id in a key format is spelled as the id itself", "%s", strings.Join(dedup(bad), "; "))
+}
+
+// isIdentityStringMethod: the method's only effect is `return string(receiver)`.
+func isIdentityStringMethod(m *ssa.Function) bool {
+	if len(m.Blocks) != 1 || len(m.Params) != 1 {
+		return false
+	}
+	for _, in := range m.Blocks[0].Instrs {
+		switch x := in.(type) {
+		case *ssa.DebugRef:
+		case *ssa.Convert, *ssa.ChangeType:
+			if x.(ssa.Value).Referrers() == nil {
+				return false
+			}
+			var src ssa.Value
+			if cv, ok := x.(*ssa.Convert); ok {
+				src = cv.X
+			} else {
+				src = x.(*ssa.ChangeType).X
+			}
+			if src != ssa.Value(m.Params[0]) {
+				return false
+			}
+		case *ssa.Return:
+			if len(x.Results) != 1 {
+				return false
+			}
+			v := x.Results[0]
+			for {
+				if cv, ok := v.(*ssa.Convert); ok {
+					v = cv.X
+				} else if ct, ok := v.(*ssa.ChangeType); ok {
+					v = ct.X
+				} else {
+					break
+				}
+			}
+			return v == ssa.Value(m.Params[0])
+		default:
+			return false
+		}
+	}
+	return false
+}
